@@ -510,13 +510,12 @@ class ObjectBase(EntityContainer):
         if not isinstance(children, list):
             children = [children]
 
+        children = [child for child in children if child in self._children]
+
         # unlink in the file first: a refusal (read-only workspace) leaves the object as it is
         self.workspace.remove_children(self, children)
 
         for child in children:
-            if child not in self._children:
-                continue
-
             if isinstance(child, PropertyGroup) and self._property_groups:
                 self.remove_property_group(child)
             elif isinstance(child, Data):
